@@ -81,6 +81,17 @@ def build_conn(n, use):
     return conn
 
 
+def remove_namespace(c, ns):
+    for cn in ('TST_L', 'TST_Q', 'TST_P'):
+        for p in c.EnumerateInstanceNames(cn, namespace=ns):
+            c.DeleteInstance(p)
+    for cn in ('TST_L', 'TST_Q', 'TST_P'):
+        c.DeleteClass(cn, namespace=ns)
+    for q in c.EnumerateQualifiers(namespace=ns):
+        c.DeleteQualifier(q.name, namespace=ns)
+    c.remove_namespace(ns)
+
+
 def path_of(o):
     import pywbem
     return o.path if isinstance(o, pywbem.CIMInstance) else o
@@ -259,6 +270,8 @@ class Real:
         """the same Iter call, consumed completely, on a connection that has learned nothing
         (same repository, same configuration, server capability as it is now)"""
         conn = build_conn(self.case['n'], self.case['use'])
+        for i in self.removed:
+            remove_namespace(conn, NSS[i])
         conn.disable_pull_operations = self.conn.disable_pull_operations
         args, kw = self.call_args(ev, False)
         try:
@@ -328,7 +341,7 @@ class Real:
             pull_route = before is None or before is True
             ok = (code == m['terr'])
             # the namespace does not exist (the traditional ExecQuery of the mock answers 7 before it looks)
-            ok = ok or (code == 3 and ev['ns'] >= len(NSS) and not disabled)
+            ok = ok or (code == 3 and (ev['ns'] >= len(NSS) or ev['ns'] in self.removed) and not disabled)
             ok = ok or (code == 7 and disabled and before is True)
             ok = ok or (code == 4 and pull_route and not disabled and
                         ((ev['fam'] != 6 and ev['lang'] == 0 and ev['query'])
@@ -423,17 +436,9 @@ class Real:
         if kind == 'rmns':
             # empty the namespace, then remove it (the only way the mock allows); enumerations opened in it stay
             if ev['ns'] not in self.removed:
-                c, ns = self.conn, NSS[ev['ns']]
                 self.quiet = True
                 try:
-                    for cn in ('TST_L', 'TST_Q', 'TST_P'):
-                        for p in c.EnumerateInstanceNames(cn, namespace=ns):
-                            c.DeleteInstance(p)
-                    for cn in ('TST_L', 'TST_Q', 'TST_P'):
-                        c.DeleteClass(cn, namespace=ns)
-                    for q in c.EnumerateQualifiers(namespace=ns):
-                        c.DeleteQualifier(q.name, namespace=ns)
-                    c.remove_namespace(ns)
+                    remove_namespace(self.conn, NSS[ev['ns']])
                 finally:
                     self.quiet = False
                 self.removed.add(ev['ns'])
